@@ -474,7 +474,7 @@ def run_c08(ctx, pid):
         ctx.log("counterexample inputs of the deviating model branches: %s" % json.dumps(ce_vectors))
 
     # (2) vectors -> real code -> table judged by Apalache
-    allv, nboundary = c08_vectors(ctx.rng, 200 if quick else 3000)
+    allv, nboundary = c08_vectors(ctx.rng, 200 if quick else 1500)
     witness = [v for v in allv if _input_class(v) != "other"]
     if quick:
         rest = [v for v in allv if _input_class(v) == "other"]
@@ -494,7 +494,7 @@ def run_c08(ctx, pid):
             % (len(rows), sum(1 for v in vectors if _input_class(v) != "other")))
 
     violations, drift, known_classes = [], None, set()
-    chunk = 300 if quick else 600
+    chunk = 300 if quick else 250     # solver time of the Conf* formulas grows faster than linearly with the table
     pending = [rows[k:k + chunk] for k in range(0, len(rows), chunk)]
     rounds = 0
     while pending:
@@ -503,7 +503,7 @@ def run_c08(ctx, pid):
             raise vlib.Infra("too many judging rounds")
         with ThreadPoolExecutor(3) as ex:
             futs = [(c, ex.submit(apalache, ctx, "table-%d" % (rounds * 100 + k), "Trace_Backoff", "CInit_code", ["J" + x for x in MON_INVS + CONF_INVS],
-                                  1500, {"Backoff_Recs.tla": recs_module(c)})) for k, c in enumerate(pending)]
+                                  1500 if quick else 3600, {"Backoff_Recs.tla": recs_module(c)})) for k, c in enumerate(pending)]
             results = [(c, f.result()) for c, f in futs]
         pending = []
         for c, r in results:
